@@ -131,6 +131,19 @@ func c06Generated() []c06Case {
 				for _, v := range u.vals {
 					want += ct.text(v)
 				}
+				// the same content handed over by a PAGE to its LAYOUT (a named slot template at the top of the page) and used by a component
+				// the layout includes without supplying that slot itself: the component instance inherits it — same names, same props per use
+				out = append(out, c06Case{
+					desc: fmt.Sprintf("gen-via-layout use%d/%s/%s", ui, ct.name, recv.expr),
+					files: map[string]string{
+						"p.vuego":            "---\nlayout: main\n---\n<template " + recv.attr + ">" + ct.src(recv.expr) + "</template>\n",
+						"layouts/main.vuego": `<article><template include="c.vuego"></template></article>`,
+						"c.vuego":            u.comp,
+						"leaf.vuego":         `<i>/{{ label }}/</i>`,
+						"wrap.vuego":         `<q>{<slot></slot>}</q>`,
+					},
+					data: d, want: want,
+				})
 				out = append(out, c06Case{
 					desc: fmt.Sprintf("gen use%d/%s/%s", ui, ct.name, recv.expr),
 					files: map[string]string{
@@ -180,7 +193,9 @@ func runC06(r *Run, replay *Case) {
 	r.Res.Rule = "components with default/named slots, fallback, scoped props (named variable, destructured, none), supplied in v-slot:, # and plain-children form with dynamic content; " +
 		"1-3 instances side by side, slot inside v-for, nested components, the same slot used twice; each case runs in an isolated child process; non-trivial = every case"
 	for _, cs := range c06Cases() {
-		r.Add(pageCase("slots:"+cs.desc, cs.files, nil, "p.vuego", cs.data))
+		if _, viaLayout := cs.files["layouts/main.vuego"]; !viaLayout {
+			r.Add(pageCase("slots:"+cs.desc, cs.files, nil, "p.vuego", cs.data))
+		}
 		sub, verdict := runIsolated("C06", map[string]any{"desc": cs.desc}, cs.desc, 20*time.Second)
 		c := &Case{Name: cs.desc, Input: map[string]any{"desc": cs.desc, "files": cs.files}, Key: cs.desc, Tags: []string{"isolated"}}
 		if sub != nil {
